@@ -98,7 +98,7 @@ EmitHash(p) ==
 
 \* ---- mutation model for malformed text (C14): operates on code-point sequences ----------------
 \* special code points: digits, separators, letters that mean something, multi-byte characters
-Specials == {48, 56, 57, 47, 32, 45, 120, 61, 43, 35, 79, 75, 107, 119, 98, 233, 9818, 1632, 8195, 65533, 0, 10}
+Specials == (32..126) \cup {0, 9, 10, 127, 233, 9818, 1632, 8195, 65533}     \* every printable ASCII character, controls, multi-byte characters
 Flood(c, n) == [i \in 1..n |-> c]
 DropAt(s, i) == SubSeq(s, 1, i - 1) \o SubSeq(s, i + 1, Len(s))
 DupAt(s, i) == SubSeq(s, 1, i) \o SubSeq(s, i, Len(s))
